@@ -9,27 +9,42 @@ from ..fprog import gen_param as GEN
 ID = 'C39'
 LEVEL = 'exploration'
 TECHNIQUE = ('differential execution (gfortran) of generated call trees vs the same trees after ParametriseTransformation run '
-             'through the Scheduler; one program run per input vector: matching vectors must give equal output, non-matching '
-             'vectors must abort with the guard message; feature-ablation reducer names the necessary generated feature')
-RULE = ('a case is a spec (entry-point mode, options, ~24 feature flags, sizes, choice streams) expanded from one Hypothesis-drawn '
+             'through the Scheduler: matching input vectors must give equal output, every non-matching vector must abort with the '
+             'guard message; the documented usage is guaranteed by construction, listed root causes are excluded by construction')
+RULE = ('a case is a spec (entry-point mode, options, 26 feature flags, sizes, choice streams) expanded from one Hypothesis-drawn '
         'integer; build(spec) deterministically generates module pmod with kernel -> mid0[,mid1] -> [leaf0] where the integer size '
         'arguments (roles A, B) dimension dummy and local arrays and bound loops and the flag argument (role F) selects branches; '
-        'role variables are passed positionally under the same or different dummy names, to all or some callees, optionally also by '
-        'keyword / inside expressions / twice / to a function; dic2p = generated subset of the roles (option roles) with the values '
-        'of the matching inputs (incl. negative and zero flags); replace_by_value=+-; entry points None (role driver), (kernel,), or '
-        'the mid routines; abort_callback emitting error stop, or the default PRINT+STOP 1. The files are written to a scratch '
-        'directory, processed by Scheduler.process(ParametriseTransformation(...)) and regenerated with to_fortran. 4 input vectors, '
-        '1-3 of them matching dic2p: for matching vectors stdout must be equal; for every non-matching vector the ORIGINAL runs '
-        'normally and the transformed program must terminate with non-zero status and the "parametrised to value" message '
-        '(stderr for error stop, stdout for the default). non-trivial = IR dump changed AND at least one matching and (if a role is '
-        'guarded) one non-matching vector AND outputs differ across the vectors; distinct by hash of the spec.')
-ASSUMPTIONS = ['gfortran 12 -O0 with -fcheck=bounds,do -ftrapv -ffpe-trap is the reference semantics',
+        'role variables are passed positionally under the same or different dummy names, to all or some callees, optionally inside '
+        'expressions, to a function, by keyword from a transformed caller, the other arguments optionally by keyword; callees '
+        'called once or twice; locals named like a role variable in routines that do not receive it. dic2p = generated subset of '
+        'the roles (option roles) with the values of the matching inputs (incl. negative and zero flags), spelled like the source; '
+        'replace_by_value=+-; entry points None (role driver), (kernel,), or the mid routines (then dic2p lists the dummy names of '
+        'both); abort_callback emitting error stop, or the default PRINT+STOP 1; optionally one transformation per role group '
+        'applied in succession with distinct `key`s. Outside the documented usage and never generated: a caller of a transformed '
+        'routine that is not itself transformed (leaf called from above the entry points), keyword actuals for the renamed '
+        'dummies of an entry point, definitions of parametrised dummies. The files are written to a scratch directory, processed '
+        'by Scheduler.process(ParametriseTransformation(...)) and regenerated with to_fortran. 4 input vectors, 1-3 of them '
+        'matching dic2p: all matching vectors run in one process and stdout must equal the original\'s; every non-matching vector '
+        'runs in a process of its own: the ORIGINAL runs normally and the transformed program must terminate with non-zero status '
+        'and the "parametrised to value" message (stderr for error stop, stdout for the default). non-trivial = IR dump changed '
+        'AND at least one matching and (if a role is guarded) one non-matching vector AND outputs differ across the vectors; '
+        'distinct by hash of the spec. Signature = C39:<failure class>:<listed root cause whose trigger the built program contains, '
+        'else the entry-point mode>; compiler messages and the flags that the ablation reducer found necessary go to the detail.')
+ASSUMPTIONS = ['gfortran 12 -O0 with -fcheck=bounds,do -ftrapv -ffpe-trap is the reference semantics (it accepts `x - -2`, which '
+               'replace_by_value produces for negative values, as an extension)',
                'the driver program never passes through loki; it calls the entry routine positionally',
                'the generated call trees are consistent as ParametriseTransformation documents: every call of a callee passes the '
-               'same role variables in the same positions, dic2p names the entry-point dummies (all spellings for several entry points)',
-               'ERROR STOP / STOP 1 end the process with a non-zero status under gfortran']
+               'same role variables to the same dummies, every caller of a transformed routine is transformed, dic2p names the '
+               'entry-point dummies (all spellings for several entry points)',
+               'ERROR STOP / STOP 1 end the process with a non-zero status under gfortran',
+               'a transformed program that exceeds 20 s per run is counted as inconclusive (machine load): the generated programs '
+               'contain bounded DO loops only and the transformation does not touch loop control',
+               'loki raising on a generated input (KeyError for names spelled in mixed case) is counted as rejected, not as a '
+               'violation: the statement does not promise a result for every input',
+               'the trigger of a listed root cause is generated only while its signature is not listed in known_findings.d/C39.txt; '
+               'the committed replay files keep the triggers']
 SHARDS = {'quick': 8, 'thorough': 16}
-BUDGET = {'quick': 80, 'thorough': 1500}
+BUDGET = {'quick': 60, 'thorough': 1500}
 
 # Listed root causes (known_findings.d/C39.txt): signature of the finding -> (entry-point modes, flags that must all be on,
 # flag that is switched off, reason counted in evidence). A rule is active only while its signature is listed; after the
@@ -44,8 +59,9 @@ TRIGGER_RULES = {
         (['mid'], ['ep_local_clash', 'two_mids'], 'ep_local_clash', 'known:entry-point-local-named-like-a-dic2p-key'),
 }
 EXCLUDE_RULES = []      # computed per run from ctx.known_sigs (X39.check_case)
-OPT_BASELINE = {'replace_by_value': False, 'abort': 'error_stop', 'roles': 'A'}
-EP_OPTS = {'driver': ('replace_by_value', 'abort'), 'named': ('replace_by_value', 'abort'), 'mid': ('replace_by_value', 'abort')}
+OPT_BASELINE = {'replace_by_value': False, 'abort': 'error_stop', 'roles': 'A', 'succession': False}
+_O = ('replace_by_value', 'abort', 'succession')
+EP_OPTS = {'driver': _O, 'named': _O, 'mid': _O}
 GUARD_TEXT = 'parametrised to value'
 
 _counter = [0]
@@ -81,10 +97,18 @@ def apply_ep(spec, rendered, meta_unused, case=None):
             return (ir.GenericStmt(text=f'error stop "{kwargs.get("msg")}"'),)
 
         o = spec['opts']
-        trafo = ParametriseTransformation(dic2p=dict(case['dic2p']), replace_by_value=bool(o.get('replace_by_value')),
-                                          entry_points=tuple(case['entry_points']) if case['entry_points'] else None,
-                                          abort_callback=error_stop if o.get('abort') == 'error_stop' else None)
-        sched.process(transformation=trafo)
+        dic, roles = dict(case['dic2p']), case['dic_roles']
+        groups = [dic]
+        if o.get('succession') and len(set(roles.values())) > 1:
+            # documented use of `key`: several of these transformations in succession (first role, then the others)
+            r0 = sorted(set(roles.values()))[0]
+            groups = [{k: v for k, v in dic.items() if roles[k] == r0}, {k: v for k, v in dic.items() if roles[k] != r0}]
+        for gi, dd in enumerate(groups):
+            trafo = ParametriseTransformation(dic2p=dd, replace_by_value=bool(o.get('replace_by_value')),
+                                              entry_points=tuple(case['entry_points']) if case['entry_points'] else None,
+                                              abort_callback=error_stop if o.get('abort') == 'error_stop' else None,
+                                              key=f'C39Parametrise{gi}' if len(groups) > 1 else None)
+            sched.process(transformation=trafo)
         after = json.dumps([irdump.dump_sourcefile(s) for _, s in sorted(sources.items())], sort_keys=True, default=str)
         files = []
         for r in rendered:
@@ -95,9 +119,61 @@ def apply_ep(spec, rendered, meta_unused, case=None):
         shutil.rmtree(d, ignore_errors=True)
 
 
+RUN_TIMEOUT = 20       # seconds per program run (tiny bounded programs; only machine load makes them slow)
+REDUCE_EVALS = 24
+
+
 class X39(GI.XCheck):
+    _ctx = None
+
     def driver_and_stdins(self, case):
-        return GEN.make_driver(case), tuple(f'{i}\n' for i in range(len(case['inputs'])))
+        # one run for all matching vectors (none of them may abort), one run per non-matching vector (each must abort)
+        return GEN.make_driver(case), tuple(f'{len(g)}\n' + ''.join(f'{i}\n' for i in g) for g in GEN.vector_groups(case))
+
+    def evaluate(self, spec, known_text=None):
+        old = GI.PairBuild.RUN_TIMEOUT
+        GI.PairBuild.RUN_TIMEOUT = RUN_TIMEOUT
+        try:
+            out = GI.XCheck.evaluate(self, spec, known_text)
+        finally:
+            GI.PairBuild.RUN_TIMEOUT = old
+        if out['status'] == 'fail' and out['coarse'] == 'inconclusive-run-timeout':
+            out.update(status='timeout', nontrivial=False)
+        return out
+
+    def reduce_failure(self, spec, coarse):
+        """XCheck.reduce_failure with a smaller evaluation budget that also stops one minute after the shard's deadline"""
+        from ..fprog import harness
+        state = {'text': '\n'.join(r['text'] for r in harness.render_case(self.gen.build(spec)))}
+        conly = coarse.startswith('candidate-does-not-compile')
+        ctx = self._ctx
+
+        def still(variant):
+            if ctx is not None and ctx.time_left() < -60:
+                return False
+            same_xf = variant['ep'] == spec['ep'] and variant['opts'] == spec['opts']
+            if conly:
+                text = '\n'.join(r['text'] for r in harness.render_case(self.gen.build(variant)))
+                if same_xf and text == state['text']:
+                    return True
+                text, cls = self.compile_only(variant)
+                good = cls == coarse
+            else:
+                r = self.evaluate(variant, known_text=state['text'] if same_xf else None)
+                if r['status'] == 'same':
+                    return True
+                text = r['text']
+                good = r['status'] == 'fail' and r['coarse'] == coarse
+            if good and same_xf:
+                state['text'] = text
+            return good
+        cur, _ = GI.reduce_spec(spec, still, flag_order=self.gen.FLAGS, size_min=self.gen.SIZE_MIN, max_evals=REDUCE_EVALS)
+        for k in self.ep_opts.get(cur['ep'], ()):
+            if cur['opts'].get(k) != self.opt_baseline[k]:
+                cand = dict(cur, opts=dict(cur['opts'], **{k: self.opt_baseline[k]}))
+                if still(cand):
+                    cur = cand
+        return cur
 
     def compare(self, case, origs, cands):
         from ..fprog.native import same_output, first_diff
@@ -105,24 +181,27 @@ class X39(GI.XCheck):
         if cands[0].stage.startswith('compile'):
             # the compiler message goes to the detail only: its wording varies with the program
             return 'candidate-does-not-compile', gfortran_error_class(cands[0].err) + ' | ' + cands[0].err[-1200:]
-        for iv, (vec, o, c) in enumerate(zip(case['inputs'], origs, cands)):
+        if any(c.stage == 'run-timeout' for c in cands):
+            return 'inconclusive-run-timeout', 'a run of the transformed program exceeded the time limit'
+        for grp, o, c in zip(GEN.vector_groups(case), origs, cands):
+            vec = case['inputs'][grp[0]]
+            tag = 'vectors ' + ','.join(str(i) for i in grp)
             if vec['match']:
                 if not c.ok:
                     if GUARD_TEXT in (c.err + c.out):
-                        return 'guard-fires-on-matching-input', f'vector {iv}: ' + c.brief()
-                    return 'candidate-runtime-error', f'vector {iv}: ' + c.brief()
+                        return 'guard-fires-on-matching-input', f'{tag}: ' + c.brief()
+                    return 'candidate-runtime-error', f'{tag}: ' + c.brief()
                 if not same_output(o.out, c.out):
-                    return 'output-differs', f'vector {iv}: ' + first_diff(o.out, c.out)
+                    return 'output-differs', f'{tag}: ' + first_diff(o.out, c.out)
             else:
                 if c.stage != 'run':
-                    return 'candidate-runtime-error', f'vector {iv}: ' + c.brief()
+                    return 'candidate-runtime-error', f'{tag}: ' + c.brief()
                 if c.rc == 0:
-                    return 'guard-does-not-fire', f'vector {iv} ({ {k: vec[k] for k in ("na", "nb", "kf")} } vs dic2p ' \
+                    return 'guard-does-not-fire', f'{tag} ({ {k: vec[k] for k in ("na", "nb", "kf")} } vs dic2p ' \
                                                   f'{case["dic2p"]}): exit status 0, stdout {c.out[-200:]!r}'
                 if GUARD_TEXT not in (c.err + c.out):
-                    return 'abort-without-guard-message', f'vector {iv}: ' + c.brief()
+                    return 'abort-without-guard-message', f'{tag}: ' + c.brief()
         return None
-
 
     def compile_only(self, spec):
         text, cls = GI.XCheck.compile_only(self, spec)
@@ -138,14 +217,26 @@ class X39(GI.XCheck):
         return f'{self.pid}:{coarse}:{trig[0] if trig else spec["ep"]}'
 
     def check_spec(self, spec, ctx, reduce=True):
+        self._ctx = ctx
         r = self.evaluate(spec)
         case = {'spec': spec}
-        ctx.case(case, r['nontrivial'], r['classes'] + ([] if r['status'] == 'ok' else ['status:' + r['status']]))
+        o, built = spec['opts'], r['case']
+        nnon = sum(1 for v in built['inputs'] if not v['match'])
+        classes = r['classes'] + ['opt:replace_by_value=%s' % bool(o.get('replace_by_value')), 'opt:abort=%s' % o.get('abort'),
+                                  'opt:succession=%s' % bool(o.get('succession') and len(set(built['dic_roles'].values())) > 1),
+                                  'parametrised-roles:' + ''.join(built['meta']['guarded']) if built['meta']['guarded']
+                                  else 'parametrised-roles:none', f'vectors:matching={4 - nnon},guard-must-fire={nnon}']
+        if r['status'] == 'ok' and nnon:
+            classes.append('guard-fired-on-every-non-matching-vector')
+        ctx.case(case, r['nontrivial'], classes + ([] if r['status'] == 'ok' else ['status:' + r['status']]))
         if r['status'] == 'ub':
             ctx.exclude('original-traps-at-runtime(UB)')
             return
         if r['status'] == 'reject':
             ctx.reject(r['exc'], case)
+            return
+        if r['status'] == 'timeout':
+            ctx.exclude('run-of-transformed-program-timed-out(inconclusive:machine-load)')
             return
         if len(ctx.samples) < 2:
             ctx.sample({'ep': spec['ep'], 'features': r['case']['meta']['features'], 'source': r['text'][:3500]})
@@ -161,6 +252,7 @@ class X39(GI.XCheck):
                 small = spec
         o = small['opts']
         detail = (f'ep={small["ep"]} replace_by_value={o.get("replace_by_value")} abort={o.get("abort")} roles={o.get("roles")} '
+                  f'succession={bool(o.get("succession"))} '
                   f'necessary flags={"+".join(GI.on_flags(small)) or "none"}: ') + detail
         ctx.fail(self.signature(small, r['coarse']), {'spec': small}, detail)
 
@@ -181,7 +273,6 @@ def executes(spec, case):
 
 
 X = X39(ID, GEN, apply_ep, executes, EP_OPTS, OPT_BASELINE, EXCLUDE_RULES)
-X.opt_candidates = {'roles': ['A', 'B', 'F', 'AB', 'AF', 'BF', 'ABF']}
 evaluate, reduce_failure, signature = X.evaluate, X.reduce_failure, X.signature
 
 
